@@ -2,6 +2,7 @@ package main
 
 import (
 	"fmt"
+	"net"
 	"os"
 	"strings"
 	"sync"
@@ -9,9 +10,22 @@ import (
 	"time"
 
 	imap "github.com/emersion/go-imap/v2"
+	"github.com/emersion/go-imap/v2/imapclient"
 )
 
 func init() { runners["C13"] = runC13 }
+
+// slowCloseConn delays Close, widening the window between the moment the client decides to
+// tear the connection down and the moment writes start to fail.
+type slowCloseConn struct {
+	net.Conn
+	delay time.Duration
+}
+
+func (c *slowCloseConn) Close() error {
+	time.Sleep(c.delay)
+	return c.Conn.Close()
+}
 
 // runC13: N goroutines share one client and issue commands of every kind while another
 // goroutine queries State/Caps/Mailbox, ENABLE changes the enabled set, and the server or the
@@ -19,7 +33,7 @@ func init() { runners["C13"] = runC13 }
 // (its Wait returns once, within the watchdog), tags on the wire must be unique, Close must
 // return. Run natively and (by bin/check) under the race detector.
 func runC13(h *H) {
-	h.Rule("one imapclient.Client shared by 2..8 goroutines issuing NOOP, STATUS, LIST (streamed), FETCH with a body literal (streamed), SEARCH (with non-ASCII criteria, so that the enabled set is consulted), APPEND (literal-bearing), ENABLE, concurrently with a goroutine calling State/Caps/Mailbox and with the connection ended at a random moment by the server (close) or by the caller (Client.Close). Oracle: every Wait returns exactly once within the watchdog, with an error if the command had not completed; tags received by the server are pairwise distinct; Close returns; the same run under the Go race detector must report no race whose stack involves imapclient or internal/imapwire. Non-trivial = the run ended the connection while commands were in flight; distinct by seed.")
+	h.Rule("one imapclient.Client shared by 2..8 goroutines issuing NOOP, STATUS, LIST (streamed), FETCH with a body literal (streamed), SEARCH (with non-ASCII criteria, so that the enabled set is consulted), APPEND (literal-bearing), ENABLE, concurrently with a goroutine calling State/Caps/Mailbox and with the connection ended at a random moment by the server (close) or by the caller (Client.Close); in half of the runs the connection's Close takes 1-4 ms, so that commands are submitted while the client is tearing down. Oracle: every Wait returns exactly once within the watchdog, with an error if the command had not completed; tags received by the server are pairwise distinct; Close returns; the same run under the Go race detector must report no race whose stack involves imapclient or internal/imapwire. Non-trivial = the run ended the connection while commands were in flight; distinct by seed.")
 	iters := h.Pick(60, 600)
 	if os.Getenv("VERIF_RACE") != "" {
 		iters = h.Pick(25, 200)
@@ -54,7 +68,20 @@ func runC13(h *H) {
 				p.Send(c.Tag + " OK done\r\n")
 			}
 		}
-		client, _ := peer.dialClient(nil)
+		// half of the runs use a connection whose Close is slow (as a TLS close_notify or a
+		// congested socket can be): commands submitted while the client is tearing down must
+		// still complete
+		var client *imapclient.Client
+		slow := it%2 == 1
+		if slow {
+			conn, err := net.Dial("tcp", peer.Addr())
+			if err != nil {
+				panic(err)
+			}
+			client = imapclient.New(&slowCloseConn{Conn: conn, delay: time.Duration(1+rng.Intn(4)) * time.Millisecond}, nil)
+		} else {
+			client, _ = peer.dialClient(nil)
+		}
 		if err := client.WaitGreeting(); err != nil {
 			h.Fail("greeting", err.Error(), desc)
 			peer.Close()
@@ -181,6 +208,9 @@ func runC13(h *H) {
 		}
 		h.Eval(key)
 		h.Hist(fmt.Sprintf("goroutines:%d", n))
+		if slow {
+			h.Hist("conn:slow-close")
+		}
 		if endByServer {
 			h.Hist("ended_by:server")
 		} else {
